@@ -97,10 +97,12 @@ type c11Doc struct {
 }
 
 var c11PlainTypeNames = []string{"Item", "Order", "User", "Addr", "Line", "Acct", "Pet", "Goat"}
-var c11HostileTypeNames = []string{"My.Type", "my-type", "200ok", "Owner.Info", "a_b", "x-Resp", "v1.0-Item"} // within ^[a-zA-Z0-9._-]+$, which OpenAPI 3 demands of component names
+var c11HostileTypeNames = []string{"My.Type", "my-type", "200ok", "Owner.Info", "a_b", "x-Resp", "v1.0-Item", ".", "-", ".x"} // within ^[a-zA-Z0-9._-]+$, which OpenAPI 3 demands of component names
 var c11BuiltinPrefixed = []string{"intOrder", "Stringy", "Internal", "dateRange", "Anything", "Boolean"}
 var c11PlainPropNames = []string{"id", "name", "qty", "createdAt", "owner", "lines", "note", "weight", "tags", "status"}
-var c11HostilePropNames = []string{"int", "string", "date", "any", "bool", "dateTime", "my-field", "a.b", "with space", "type", "1st", "x_y", "Foo"}
+var c11HostilePropNames = []string{"int", "string", "date", "any", "bool", "dateTime", "my-field", "a.b", "with space", "type", "1st", "x_y", "Foo",
+	// names whose first character needs a %-escape and is followed by a digit, a dash, or nothing (GitHub's "+1"/"-1" reactions)
+	"+1", "-1", "$1", ".5x", "#1", "$", "$ref_count", "a+b", ".hidden"}
 var c11KeywordPropNames = []string{"if", "else", "for", "loop", "alt", "while", "until", "return", "If", "FOR"}
 var c11PathSegs = []string{"pets", "orders", "v1", "goat", "get-goats", "a_b", "things"}
 
